@@ -26,35 +26,49 @@ func c20(c *core.Ctx, r *core.Report) {
 		}
 	}
 
-	loopCall := func(fn *ssa.Function, typ string) (ssa.CallInstruction, bool) {
-		var found ssa.CallInstruction
-		n := 0
-		for _, call := range an.AllCalls(fn) {
-			if nt := an.DynCallType(call); nt != nil && an.IsNamed(nt, testingPkg, typ) {
-				found = call
-				n++
+	// the component call of a closure, possibly inside a helper it calls in place
+	loopCall := func(fn *ssa.Function, typ string) (*an.Event, bool) {
+		evs := an.FlatCalls(fn, flatDepth, func(call ssa.CallInstruction, t *ssa.Function) bool {
+			if t != nil {
+				return false
+			}
+			nt := an.DynCallType(call)
+			return nt != nil && an.IsNamed(nt, testingPkg, typ)
+		})
+		if len(evs) == 0 {
+			return nil, false
+		}
+		return &evs[len(evs)-1], len(evs) == 1
+	}
+	inFrames := func(e *an.Event, fn *ssa.Function) bool {
+		for f := e.Frame; f != nil; f = f.Parent {
+			if f.Fn == fn {
+				return true
 			}
 		}
-		return found, n == 1
+		return false
 	}
 
 	rule(r, "C20.R1", "components receive the closure's own handle; results are collected in order into a slice owned by that setup call; stored functions are called with the iteration's own handle", func() {
 		if setupFn == nil || iterFn == nil {
 			panic(core.AnchorError{What: "setup / iteration closures of CombineScenarios"})
 		}
-		sc, one := loopCall(setupFn, "ScenarioFn")
-		if sc == nil || !one {
+		sev, one := loopCall(setupFn, "ScenarioFn")
+		if sev == nil || !one {
 			r.Violation("CombineScenarios$setup#call", c.Pos(setupFn.Pos()), "the setup closure does not contain exactly one component-setup call site")
 			return
 		}
-		_, isParam := sc.Common().Args[0].(*ssa.Parameter)
-		r.Check(isParam && sc.Common().Args[0].(*ssa.Parameter).Parent() == setupFn, "CombineScenarios$setup#handle", an.Pos(c, sc), "each component setup receives the setup closure's own parameter", "component setups are called with "+an.D().Of(sc.Common().Args[0])+", not with the handle this setup was given: cleanups and failures land on another handle")
-		// the component called is the range element of the captured scenarios
-		r.Check(stripCaret(an.D().Of(sc.Common().Value)) == "$scenarios[(phi(-1 | ↺) + 1)]" || isRangeElemOf(sc.Common().Value), "CombineScenarios$setup#element", an.Pos(c, sc), "the component called is the loop's element of the scenarios given", "the setup called is "+an.D().Of(sc.Common().Value))
-		// result appended to a slice local to this closure
+		sc := sev.Call()
+		h := sev.Translate(sc.Common().Args[0])
+		hp, isParam := h.(*ssa.Parameter)
+		r.Check(isParam && hp.Parent() == setupFn, "CombineScenarios$setup#handle", an.Pos(c, sc), "each component setup receives the setup closure's own parameter", "component setups are called with "+an.D().Of(h)+", not with the handle this setup was given: cleanups and failures land on another handle")
+		// the component called is the range element of the scenarios given
+		r.Check(isRangeElemOf(sc.Common().Value), "CombineScenarios$setup#element", an.Pos(c, sc), "the component called is the loop's element of the scenarios given", "the setup called is "+an.D().Of(sc.Common().Value))
+		// result appended, in loop order, to a list: a local cell (load/append/store back) or a loop-carried value
 		v, _ := sc.(ssa.Value)
 		appended := false
 		var target *ssa.Alloc
+		var listPhi *ssa.Phi
 		for _, ref := range an.Referrers(v) {
 			st, ok := ref.(*ssa.Store)
 			if !ok {
@@ -75,12 +89,13 @@ func c20(c *core.Ctx, r *core.Report) {
 					if !ok || !an.IsBuiltinCall(ap, "append") {
 						continue
 					}
-					// append(load(cell), elems...) stored back to the cell
-					if ld, ok := ap.Call.Args[0].(*ssa.UnOp); ok {
+					switch base := ap.Call.Args[0].(type) {
+					case *ssa.UnOp:
+						// append(load(cell), elems...) stored back to the cell
 						for _, r4 := range an.Referrers(ap) {
-							if st2, ok := r4.(*ssa.Store); ok && st2.Addr == ld.X {
+							if st2, ok := r4.(*ssa.Store); ok && st2.Addr == base.X {
 								appended = true
-								switch a := ld.X.(type) {
+								switch a := base.X.(type) {
 								case *ssa.Alloc:
 									target = a
 								case *ssa.FreeVar:
@@ -90,6 +105,11 @@ func c20(c *core.Ctx, r *core.Report) {
 								}
 							}
 						}
+					case *ssa.Phi:
+						if phiCycle(base, ap) {
+							appended = true
+							listPhi = base
+						}
 					}
 				}
 			}
@@ -98,22 +118,47 @@ func c20(c *core.Ctx, r *core.Report) {
 			r.Violation("CombineScenarios$setup#collect", an.Pos(c, sc), "the iteration function returned by a component setup is not appended to the list the iteration closure walks")
 			return
 		}
-		r.Check(target != nil && target.Parent() == setupFn, "CombineScenarios$setup#fresh-list", an.Pos(c, sc), "the list of iteration functions is created inside the setup call (fresh per setup)", "the list of iteration functions lives outside the setup closure: a second setup of the same combined scenario appends to the first one's list, so every component runs twice (stale closures first)")
+		fresh := false
+		if target != nil {
+			fresh = inFrames(sev, target.Parent())
+		} else if listPhi != nil {
+			fresh = true
+			for _, e := range listPhi.Edges {
+				if k, isK := e.(*ssa.Const); isK && k.IsNil() {
+					continue
+				}
+				if call, isCall := e.(*ssa.Call); isCall && an.IsBuiltinCall(call, "append") {
+					continue
+				}
+				if _, isMk := e.(*ssa.MakeSlice); isMk {
+					continue
+				}
+				fresh = false
+			}
+		}
+		r.Check(fresh, "CombineScenarios$setup#fresh-list", an.Pos(c, sc), "the list of iteration functions is created inside the setup call (fresh per setup)", "the list of iteration functions lives outside the setup closure: a second setup of the same combined scenario appends to the first one's list, so every component runs twice (stale closures first)")
 		// the iteration closure walks that same list
-		ic, one := loopCall(iterFn, "RunFn")
-		if ic == nil || !one {
+		iev, one := loopCall(iterFn, "RunFn")
+		if iev == nil || !one {
 			r.Violation("CombineScenarios$iter#call", c.Pos(iterFn.Pos()), "the iteration closure does not contain exactly one component call site")
 			return
 		}
-		p, isP := ic.Common().Args[0].(*ssa.Parameter)
-		r.Check(isP && p.Parent() == iterFn, "CombineScenarios$iter#handle", an.Pos(c, ic), "each component iteration receives the iteration closure's own parameter", "component iteration functions are called with "+an.D().Of(ic.Common().Args[0])+" (e.g. the captured setup handle), not with this iteration's handle")
-		// list identity
+		ic := iev.Call()
+		ih := iev.Translate(ic.Common().Args[0])
+		p, isP := ih.(*ssa.Parameter)
+		r.Check(isP && p.Parent() == iterFn, "CombineScenarios$iter#handle", an.Pos(c, ic), "each component iteration receives the iteration closure's own parameter", "component iteration functions are called with "+an.D().Of(ih)+" (e.g. the captured setup handle), not with this iteration's handle")
+		// list identity: the list walked is the captured variable of the setup call that holds the collected list
 		okList := false
 		if ia, ok := an.Strip(ic.Common().Value).(*ssa.IndexAddr); ok {
-			if ld, ok := ia.X.(*ssa.UnOp); ok {
-				if fv, ok := ld.X.(*ssa.FreeVar); ok {
-					if b := an.FreeVarBinding(fv); b != nil && b == ssa.Value(target) {
-						okList = true
+			lv := an.EventFV(*iev, ia.X).Resolve(nil).V
+			if fv, ok := lv.(*ssa.FreeVar); ok && fv.Parent() == iterFn {
+				if al, ok := an.FreeVarBinding(fv).(*ssa.Alloc); ok {
+					switch {
+					case target != nil:
+						okList = al == target
+					case listPhi != nil:
+						sts := an.StoresTo(al)
+						okList = len(sts) == 1 && an.RootFV(setupFn, sts[0].Val).Resolve(nil).V == ssa.Value(listPhi)
 					}
 				}
 			}
@@ -135,12 +180,13 @@ func c20(c *core.Ctx, r *core.Report) {
 		}
 		for name, fn := range map[string]*ssa.Function{"setup": setupFn, "iter": iterFn} {
 			typ := map[string]string{"setup": "ScenarioFn", "iter": "RunFn"}[name]
-			call, _ := loopCall(fn, typ)
+			ev, _ := loopCall(fn, typ)
 			key := "CombineScenarios$" + name
-			if call == nil {
+			if ev == nil {
 				r.Violation(key+"#loop", c.Pos(fn.Pos()), "no component call")
 				continue
 			}
+			call := ev.Call()
 			if _, isCall := call.(*ssa.Call); !isCall {
 				r.Violation(key+"#sync", an.Pos(c, call), "components are started with go/defer: a later component runs although an earlier one stopped the iteration, and order is lost")
 				continue
@@ -159,9 +205,16 @@ func c20(c *core.Ctx, r *core.Report) {
 			if okLoop && len(an.GuardsOf(call.Block())) > 1 {
 				okLoop, why = false, "the component call is conditional"
 			}
+			// the helper holding the loop is itself called once, unconditionally
+			for fr := ev.Frame; okLoop && fr.Parent != nil; fr = fr.Parent {
+				if an.InLoop(fr.Site) || len(an.GuardsOf(fr.Site.Block())) > 0 {
+					okLoop, why = false, "the pass over the components is itself conditional or repeated"
+				}
+			}
 			r.Check(okLoop, key+"#loop", an.Pos(c, call), "forward range over the whole list, one call per element", "components are not run by a single forward pass over the whole list: "+why)
 			clean := true
-			an.Instrs(fn, func(in ssa.Instruction) {
+			an.Flatten(fn, flatDepth, nil, func(e an.Event) {
+				in := e.Instr
 				switch x := in.(type) {
 				case *ssa.Go:
 					clean = false
